@@ -99,6 +99,34 @@ fn main() {
             0
         }
         Some("replay") => runner::replay_file(&checks, std::path::Path::new(args.get(2).map(String::as_str).unwrap_or(""))),
+        Some("advtime") => {
+            // timing of adversarial inputs (diagnostic)
+            xtapi::install_panic_hook();
+            for (name, bytes) in corpus::adversarial() {
+                if let Some(f) = args.get(2) {
+                    if !name.contains(f.as_str()) {
+                        continue;
+                    }
+                }
+                for from in [None, Some(xtapi::Fmt::Json), Some(xtapi::Fmt::Msgpack), Some(xtapi::Fmt::Toml), Some(xtapi::Fmt::Yaml)] {
+                    if matches!(from, None | Some(xtapi::Fmt::Yaml)) && corpus::libyaml_quadratic(&name, &bytes) {
+                        continue;
+                    }
+                    for to in xtapi::FORMATS {
+                        let t = std::time::Instant::now();
+                        let s = xtapi::run_slice(&bytes, from, to);
+                        let t1 = t.elapsed().as_secs_f64();
+                        let t = std::time::Instant::now();
+                        let r = xtapi::run_sched(&bytes, &sio::Sched::Full, from, to);
+                        let t2 = t.elapsed().as_secs_f64();
+                        if t1 > 0.5 || t2 > 0.5 {
+                            println!("{} {}->{} slice {:.2}s {} | reader {:.2}s {}", name, xtapi::opt_name(from), to.name(), t1, &s.verdict.brief().chars().take(60).collect::<String>(), t2, &r.verdict.brief().chars().take(60).collect::<String>());
+                        }
+                    }
+                }
+            }
+            0
+        }
         Some("list") => {
             for c in &checks {
                 println!("{}", c.id());
